@@ -1,6 +1,7 @@
 import SmtpV.Props.C20
 import SmtpV.Spec.Monitors
 import SmtpV.Proofs.ReplyWF
+import SmtpV.Proofs.ReplyML
 /-!
 # C04 — one well-formed reply per command, reporting that command's outcome
 
@@ -31,5 +32,15 @@ theorem C04_reply_syntax (code : Nat) (h1 : 100 ≤ code) (h2 : code ≤ 999) (e
     ReplySyntax.enhOf (enhBytes (effEnh code enh) ++ [32] ++ msg) =
       some ((effEnh code enh).a.toNat, (effEnh code enh).b.toNat, (effEnh code enh).c.toNat) :=
   ⟨reply_syntax_single code h1 h2 enh msg hm he, enhOf_render _ he msg⟩
+
+open SmtpV.Spec SmtpV.Reply SmtpV.ReplyRT SmtpV.Text in
+/-- **C04_reply_syntax_multiline.**  The same for a text of any number of lines (empty lines, lines that look like codes …):
+    what the renderer writes is accepted by the strict recogniser as exactly one reply with that code — every line but the last
+    a continuation line — whose lines are the text lines, each behind the enhanced status code. -/
+theorem C04_reply_syntax_multiline (code : Nat) (h1 : 100 ≤ code) (h2 : code ≤ 999) (enh : Enh) (msg : Bytes)
+    (he : EnhOk (effEnh code enh)) :
+    ReplySyntax.parse (render code enh [msg]) =
+      some [{ code := code, lines := (splitByte msg 10).map (fun l => tok (effEnh code enh) ++ l) }] :=
+  reply_syntax code h1 h2 enh msg he
 
 end SmtpV.Props.C04
